@@ -34,11 +34,11 @@ const NODE_CAP: u64 = 1_000_000;
 
 fn search(
     state: Option<Order>,
-    used: u32,
+    used: u64,
     evs: &[LEv],
     fin: &Option<Order>,
     silent_ok: bool,
-    seen: &mut HashSet<(u32, Option<(u64, u64)>)>,
+    seen: &mut HashSet<(u64, Option<(u64, u64)>)>,
     nodes: &mut u64,
 ) -> bool {
     *nodes += 1;
@@ -79,14 +79,14 @@ fn search(
         None => return false, // gone, yet events remain (or final mismatch)
     };
     for i in 0..n {
-        if used & (1 << i) != 0 {
+        if used & (1u64 << i) != 0 {
             continue;
         }
         let e = &evs[i];
         // every unused event that must precede e blocks it
         let blocked = (0..n).any(|j| {
             j != i
-                && used & (1 << j) == 0
+                && used & (1u64 << j) == 0
                 && (evs[j].ret < e.call || (evs[j].op_uid == e.op_uid && evs[j].pos < e.pos))
         });
         if blocked {
@@ -125,7 +125,7 @@ fn search(
             }
         };
         if let Some(ns) = next {
-            if search(ns, used | (1 << i), evs, fin, silent_ok, seen, nodes) {
+            if search(ns, used | (1u64 << i), evs, fin, silent_ok, seen, nodes) {
                 return true;
             }
         }
@@ -210,7 +210,7 @@ pub fn per_order_linearizable(ex: &Execution, st: &mut LinStats) -> Vec<String> 
                 continue;
             }
         };
-        if e.len() > 20 {
+        if e.len() > 60 {
             st.capped += 1;
             continue;
         }
@@ -282,6 +282,8 @@ pub fn quiescent_basics(ex: &Execution) -> Vec<String> {
 // ---------------------------------------------------------------------------------------------
 
 pub const SIG_K4: &str = "not-found-while-in-flight";
+/// prefix of a checker message that is a verdict of "inconclusive", not a violation
+pub const INCONCLUSIVE: &str = "INCONCLUSIVE: ";
 
 #[derive(Default)]
 pub struct AckStats {
@@ -489,10 +491,19 @@ pub fn drain_check(ex: &Execution) -> Vec<String> {
     let total: u128 = before.sum_vis() + before.sum_hid();
     let huge = (total as u64).saturating_mul(4).saturating_add(1000);
     let taker = model::oid(8_888_888);
-    let m = match crate::hook::quiet_catch(|| ex.level.match_order(huge, taker, &ex.idgen)) {
+    // the drain runs under the step counter: a match that does not return is cut
+    crate::hook::count_begin(crate::hseq::CALL_BUDGET);
+    let r = crate::hook::quiet_catch(|| ex.level.match_order(huge, taker, &ex.idgen));
+    crate::hook::count_end();
+    let m = match r {
         Ok(m) => m,
         Err(p) => {
-            out.push(format!("draining match panicked: {}", crate::sched::panic_message(&*p)));
+            let msg = crate::sched::panic_message(&*p);
+            if msg == crate::hook::OVERRUN_MSG {
+                out.push(format!("{}the draining match did not return within {} steps (termination is C06's subject)", INCONCLUSIVE, crate::hseq::CALL_BUDGET));
+            } else {
+                out.push(format!("draining match panicked: {}", msg));
+            }
             return out;
         }
     };
